@@ -136,7 +136,7 @@ def triples_stream_frames(
                 yield frame
         if frame := stream.flow.frame_from_graph():
             yield frame
-    if stream.stream_types.flat and (frame := stream.flow.to_stream_frame()):
+    if frame := stream.flow.to_stream_frame():
         yield frame
 
 
@@ -173,7 +173,7 @@ def quads_stream_frames(
             yield frame
     if frame := stream.flow.frame_from_dataset():
         yield frame
-    if stream.stream_types.flat and (frame := stream.flow.to_stream_frame()):
+    if frame := stream.flow.to_stream_frame():
         yield frame
 
 
@@ -215,7 +215,7 @@ def graphs_stream_frames(
 
     if frame := stream.flow.frame_from_dataset():
         yield frame
-    if stream.stream_types.flat and (frame := stream.flow.to_stream_frame()):
+    if frame := stream.flow.to_stream_frame():
         yield frame
 
 
